@@ -103,6 +103,13 @@ def maxDepthCap (net : Net W) (cap : Int) (vis : List Bool) : TopRes :=
 def maxDepth (net : Net W) (vis : List Bool) : Option TopRes :=
   if net.ctrl.length == 0 then some (maxDepthCap net 0 vis) else none
 
+/-- a sequence of `MaxActivationDepthWithCap(cap)` calls on one network instance (marks carried over) -/
+def runQueries (net : Net W) : List Int → List Bool → List TopRes
+  | [], _ => []
+  | c :: cs, vis =>
+    let r := maxDepthCap net c vis
+    r :: runQueries net cs r.vis
+
 /-- marks of a freshly built network -/
 def clean (net : Net W) : List Bool := net.nodes.map fun _ => false
 
